@@ -123,6 +123,7 @@ pub fn exec_configs(
   mut fresh: impl FnMut(&IndexCfg) -> Result<(Index, std::path::PathBuf), String>,
   mut push: impl FnMut(&[Transaction]),
   mut restore: impl FnMut(),
+  batch: bool,
 ) {
   let mut reference: Option<(String, Vec<Value>)> = None;
   for cfg in cfgs {
@@ -136,8 +137,12 @@ pub fn exec_configs(
     };
     let mut projections = Vec::new();
     let mut failed = false;
-    for txs in blocks {
+    for (bi, txs) in blocks.iter().enumerate() {
       push(txs);
+      // batch: ONE update() for all blocks, compared once at the end
+      if batch && bi + 1 < blocks.len() {
+        continue;
+      }
       match util::catch(|| index.update()) {
         Ok(Ok(())) => {}
         Ok(Err(err)) => {
@@ -186,6 +191,10 @@ pub fn exec_configs(
 }
 
 fn exec_insc(w: &mut inscriptions::Worker, cfgs: &[IndexCfg], layout: &inscriptions::Layout, choices: &Choices) -> Exec {
+  exec_insc_mode(w, cfgs, layout, choices, false)
+}
+
+fn exec_insc_mode(w: &mut inscriptions::Worker, cfgs: &[IndexCfg], layout: &inscriptions::Layout, choices: &Choices, batch: bool) -> Exec {
   let mut e = Exec::default();
   let Some((blocks, rendered)) = inscriptions::build_history(w, layout, choices, 0) else {
     e.disabled = true;
@@ -206,12 +215,17 @@ fn exec_insc(w: &mut inscriptions::Worker, cfgs: &[IndexCfg], layout: &inscripti
     },
     |txs| unsafe { (*wp).world.push_block(txs.to_vec()); },
     || unsafe { (*wp).restore_prefix() },
+    batch,
   );
   e.outcome = format!("{} inscriptions", e.states.len());
   e
 }
 
 fn exec_runes(w: &mut runes::Worker, cfgs: &[IndexCfg], layout: &runes::Layout, choices: &Choices) -> Exec {
+  exec_runes_mode(w, cfgs, layout, choices, false)
+}
+
+fn exec_runes_mode(w: &mut runes::Worker, cfgs: &[IndexCfg], layout: &runes::Layout, choices: &Choices, batch: bool) -> Exec {
   let mut e = Exec::default();
   let Some((blocks, rendered)) = runes::build_history(w, layout, choices) else {
     e.disabled = true;
@@ -231,6 +245,7 @@ fn exec_runes(w: &mut runes::Worker, cfgs: &[IndexCfg], layout: &runes::Layout, 
     },
     |txs| unsafe { (*wp).world.push_block(txs.to_vec()); },
     || unsafe { (*wp).restore_prefix() },
+    batch,
   );
   e.outcome = format!("{} states", e.states.len());
   e
@@ -244,6 +259,28 @@ pub fn run(ctx: &Ctx) -> Report {
   if let Some(path) = &ctx.replay {
     let v: Value = serde_json::from_str(&std::fs::read_to_string(path).expect("read replay")).expect("json");
     let r = &v["replay"];
+    if let Some(name) = r["dense"].as_str() {
+      let batch = r["batch"].as_bool().unwrap_or(false);
+      let e = if r["suite"] == "runes-dense" {
+        let spec = runes::DENSE.iter().find(|(n, _)| *n == name).expect("dense").1;
+        exec_runes_mode(&mut runes::Worker::new(0), &config_set(true, runes::BASE + 1), &runes::dense_layout(spec.len()), &runes::dense_choices(spec), batch)
+      } else {
+        let spec = inscriptions::DENSE.iter().find(|(n, _)| *n == name).expect("dense").1;
+        exec_insc_mode(&mut inscriptions::Worker::new(0, "regtest", 10), &config_set(true, 11), &inscriptions::dense_layout(spec.len()), &inscriptions::dense_choices(spec), batch)
+      };
+      println!("replay history: {}", e.rendered);
+      for (p, c, what) in &e.violations {
+        println!("  [{p}] {c}: {what}");
+        if p == property {
+          report.violation(c.clone(), what.clone(), r.clone());
+        }
+      }
+      report.set("states", e.states.len().max(1) as u64);
+      report.set("transitions", e.blocks.max(1));
+      report.set("traces_validated_against_impl", 1u64);
+      report.sample(e.rendered);
+      return report;
+    }
     let choices: Choices = r["choices"].as_array().unwrap().iter().map(|x| x.as_u64().unwrap() as u8).collect();
     let templates: Vec<usize> = r["templates"].as_array().unwrap().iter().map(|x| x.as_u64().unwrap() as usize).collect();
     let shapes = r["shapes"].as_u64().unwrap() as usize;
@@ -317,6 +354,61 @@ pub fn run(ctx: &Ctx) -> Report {
       exhaustive = false;
     }
   }
+  // dense multi-deviation families under every configuration, update() per block and one update() for all blocks
+  {
+    let mut jobs: Vec<(bool, usize, bool)> = Vec::new(); // (runes?, dense index, batch)
+    for d in 0..inscriptions::DENSE.len() {
+      for b in [false, true] {
+        jobs.push((false, d, b));
+      }
+    }
+    for d in 0..runes::DENSE.len() {
+      for b in [false, true] {
+        jobs.push((true, d, b));
+      }
+    }
+    let (results, _) = util::par_map(
+      jobs.len(),
+      None,
+      |id| id,
+      |id, i| {
+        let (is_runes, d, batch) = jobs[i];
+        util::catch(|| {
+          if is_runes {
+            let spec = runes::DENSE[d].1;
+            exec_runes_mode(&mut runes::Worker::new(800 + *id), &config_set(true, runes::BASE + 1), &runes::dense_layout(spec.len()), &runes::dense_choices(spec), batch)
+          } else {
+            let spec = inscriptions::DENSE[d].1;
+            exec_insc_mode(&mut inscriptions::Worker::new(800 + *id, "regtest", 10), &config_set(true, 11), &inscriptions::dense_layout(spec.len()), &inscriptions::dense_choices(spec), batch)
+          }
+        })
+      },
+    );
+    let mut n = 0u64;
+    for (i, r) in results.into_iter().enumerate() {
+      let (is_runes, d, batch) = jobs[i];
+      let name = if is_runes { runes::DENSE[d].0 } else { inscriptions::DENSE[d].0 };
+      let tag = format!("{}/{name}{}", if is_runes { "runes" } else { "inscriptions" }, if batch { "/one-update" } else { "/per-block" });
+      match r {
+        Some(Ok(e)) if !e.disabled => {
+          n += 1;
+          all_states.extend(e.states.iter().cloned());
+          report.add("transitions", e.blocks);
+          for (p, c, what) in &e.violations {
+            let (p, c) = if p == "C16" && c.starts_with("update/") { (property.to_string(), format!("index-stuck/{c}")) } else { (p.clone(), c.clone()) };
+            if p == property {
+              report.violation(c, format!("[{tag}] {what}"), json!({"suite": if is_runes { "runes-dense" } else { "inscriptions-dense" }, "dense": name, "batch": batch}));
+            }
+          }
+        }
+        Some(Ok(_)) => report.violation("machinery/dense-disabled", format!("dense history {tag} cannot be built"), json!({})),
+        Some(Err(p)) => report.violation("machinery/harness-panic", format!("dense history {tag}: {p}"), json!({})),
+        None => {}
+      }
+    }
+    traces += n;
+    report.set("dense.executions", n);
+  }
   report.set("states", all_states.len().max(1) as u64);
   report.set("traces_validated_against_impl", traces);
   report.set("distinct_nontrivial", all_states.len().max(2) as u64);
@@ -327,7 +419,8 @@ pub fn run(ctx: &Ctx) -> Report {
      {index-sats, index-addresses, index-transactions} with runes on, plus the node-fetch configuration (no sat/address index, first inscription height moved to the first \
      enumerated block through the verif knob so that every spent setup output is fetched from the node); quick: K<=1 under all 9 configurations, K=2 (core alphabet) under \
      {none, all, node-fetch}; the projection (ids, numbers, satpoints, parents, fees, heights, non-sat-derived charms, children / number / per-block tables, rune entries and balances) \
-     must be identical after every block; states = distinct (configuration, projection) pairs reached",
+     must be identical after every block; plus the dense 3-block families of both suites under all 9 configurations, indexed block by block and by one update() for all three blocks \
+     (so that outputs created earlier in the same uncommitted batch are spent next to node-fetched inputs); states = distinct (configuration, projection) pairs reached",
   );
   report.assume("environment = mockcore JSON-RPC; the node-fetch path is reached through a guarded knob that overrides Settings::first_inscription_height on the worker thread");
   report.assume("the setup prefix loses no sats, so lost-sat offsets before the first inscription height are zero in every configuration");
